@@ -531,10 +531,10 @@ def oracle_noise(r):
 
 
 SUBCHECKS = [
-    SubCheck("dm", _dm_case(), oracle_dm, quick=1200, thorough=50000, shards_quick=5, essential={"nonunital": 0.04}),
-    SubCheck("dm_qudit", _dm_case(qudits=True), oracle_dm, quick=300, thorough=12000, shards_quick=2),
-    SubCheck("dephased", _dephased_case(), oracle_dephased, quick=500, thorough=20000, shards_quick=2),
-    SubCheck("trajectories", _traj_case(), oracle_traj, quick=700, thorough=30000, shards_quick=4),
-    SubCheck("representations", _reps_strategy(), oracle_reps, quick=1500, thorough=60000, shards_quick=2),
-    SubCheck("noise_models", _noise_case(), oracle_noise, quick=500, thorough=20000, shards_quick=3),
+    SubCheck("dm", _dm_case(), oracle_dm, quick=3000, thorough=15000, shards_quick=6, essential={"nonunital": 0.04}),
+    SubCheck("dm_qudit", _dm_case(qudits=True), oracle_dm, quick=300, thorough=4000, shards_quick=2),
+    SubCheck("dephased", _dephased_case(), oracle_dephased, quick=1000, thorough=6000, shards_quick=2),
+    SubCheck("trajectories", _traj_case(), oracle_traj, quick=1500, thorough=8000, shards_quick=4),
+    SubCheck("representations", _reps_strategy(), oracle_reps, quick=3000, thorough=30000, shards_quick=3),
+    SubCheck("noise_models", _noise_case(), oracle_noise, quick=1200, thorough=5000, shards_quick=4),
 ]
